@@ -354,7 +354,7 @@ def inst_store_over_regridded_source(kind):
         adv = tuple(map(tuple, coll.chunks))
         target = np.empty(tuple(int(sum(c)) for c in adv))
         stored = w.fn("dask_array.io._store", "store")(coll, target, compute=False, return_stored=True, lock=False)
-        for stage in ("lowered", "materialized"):
+        for stage in ("lowered",):  # (after fusion the store step is part of a fused group)
             st = catalog.stages(E, w, stored.expr, {stage})[stage]
             seen = 0
             for n in _walk(st):
